@@ -7,7 +7,7 @@
     overflow guard), and [mmr_size n <= u32_max] (array indices are u32). *)
 From V.Lib Require Import Base MachInt.
 From V.C20 Require Import Model Spec ProofsData ProofsArith ProofsStore ProofsAppend ProofsSpec
-  ProofsTruncate Corr ProofsTop ProofsCodec.
+  ProofsTruncate Corr Wf ProofsTop ProofsCodec ProofsView ProofsNew BridgeCodec BridgeTree BridgeView.
 Local Open Scope Z_scope.
 
 (** Field rules of [Version::combine] for V1/V2/V3. *)
@@ -116,6 +116,110 @@ Theorem C20_entry_roundtrip : forall v e w rest,
   write_entry v e = Ok w ->
   read_entry v (d_branch (e_data e)) (w ++ rest) = Ok (e, rest).
 Proof. exact entry_roundtrip. Qed.
+
+(** Whole-record canonicity: whatever a node / entry parser accepts is exactly the serialisation
+    of the record it returns (plus the unread rest); the record is well-typed with an ascending
+    height range.  The parsers never panic. *)
+Theorem C20_node_canonical : forall v br b d rest, 0 <= br <= u32_max -> bytesP b ->
+  read_node v br b = Ok (d, rest) ->
+  b = write_node v d ++ rest /\ wf_data v d /\ d_branch d = br /\
+  height_span (d_sh d) (d_eh d) <> None /\ bytesP rest.
+Proof. exact node_canonical. Qed.
+Theorem C20_entry_canonical : forall v br b e rest, 0 <= br <= u32_max -> bytesP b ->
+  read_entry v br b = Ok (e, rest) ->
+  exists w, write_entry v e = Ok w /\ b = w ++ rest /\ wf_data v (e_data e) /\ bytesP rest.
+Proof. exact entry_canonical. Qed.
+Theorem C20_read_node_total : forall v br b, read_node v br b <> Panic.
+Proof. exact read_node_total. Qed.
+Theorem C20_read_entry_total : forall v br b, read_entry v br b <> Panic.
+Proof. exact read_entry_total. Qed.
+
+(** Partially loaded views.  [repr_view H v t ls]: [t] holds (at least) the peak roots of the tree
+    over [ls]; [repr_view_spine]: and the right spine of the last peak with the left children
+    hanging off it.  The fully loaded tree is such a view. *)
+Theorem C20_full_is_view : forall H v t ls, repr H v t ls -> repr_view_spine H v t ls.
+Proof. exact full_is_view. Qed.
+Theorem C20_view_root : forall H v t ls b h0,
+  repr_view H v t ls -> seg_ok b h0 ls ->
+  exists en, root_node t = Ok en /\ mmr_root H v ls = Some (e_data en) /\
+             t_count t = mmr_size (length ls).
+Proof. exact view_root. Qed.
+(** append on a view: no [ExpectedInMemory], same links; the result also holds what a
+    following truncation reads *)
+Theorem C20_view_append : forall H oc v t ls d b h0,
+  repr_view H v t ls -> seg_ok b h0 (ls ++ [d]) -> mmr_size (length (ls ++ [d])) <= u32_max ->
+  exists t',
+    append_leaf H oc v t d
+    = Ok (t', map (fun i => Stored (t_count t + Z.of_nat i))
+                  (seq 0 (Z.to_nat (mmr_size (length (ls ++ [d])) - mmr_size (length ls))))) /\
+    repr_view_spine H v t' (ls ++ [d]).
+Proof. exact view_append. Qed.
+Theorem C20_view_truncate : forall H oc v t ls d b h0,
+  repr_view_spine H v t (ls ++ [d]) -> ls <> [] -> seg_ok b h0 (ls ++ [d]) ->
+  mmr_size (length (ls ++ [d])) <= u32_max ->
+  exists t',
+    truncate_leaf H oc v t = Ok (t', mmr_size (length (ls ++ [d])) - mmr_size (length ls)) /\
+    repr_view H v t' ls.
+Proof. exact view_truncate. Qed.
+(** the refinement: same returned value, same root record, same length as the full tree *)
+Theorem C20_partial_view_refines_append : forall H oc v tf tv ls d b h0,
+  repr H v tf ls -> repr_view H v tv ls -> seg_ok b h0 (ls ++ [d]) ->
+  mmr_size (length (ls ++ [d])) <= u32_max ->
+  exists tf' tv' links enf env,
+    append_leaf H oc v tf d = Ok (tf', links) /\ append_leaf H oc v tv d = Ok (tv', links) /\
+    repr H v tf' (ls ++ [d]) /\ repr_view_spine H v tv' (ls ++ [d]) /\
+    root_node tf' = Ok enf /\ root_node tv' = Ok env /\ e_data env = e_data enf /\
+    t_count tv' = t_count tf'.
+Proof. exact partial_view_refines_append. Qed.
+Theorem C20_partial_view_refines_truncate : forall H oc v tf tv ls d b h0,
+  repr H v tf (ls ++ [d]) -> repr_view_spine H v tv (ls ++ [d]) -> ls <> [] -> seg_ok b h0 (ls ++ [d]) ->
+  mmr_size (length (ls ++ [d])) <= u32_max ->
+  exists tf' tv' cnt enf env,
+    truncate_leaf H oc v tf = Ok (tf', cnt) /\ truncate_leaf H oc v tv = Ok (tv', cnt) /\
+    repr H v tf' ls /\ repr_view H v tv' ls /\
+    root_node tf' = Ok enf /\ root_node tv' = Ok env /\ e_data env = e_data enf /\
+    t_count tv' = t_count tf'.
+Proof. exact partial_view_refines_truncate. Qed.
+(** [Tree::new(length, peaks, extra)] on the peak roots of an array representation [mf] (peaks
+    [R], last first) plus any extra nodes of that array is a view; every supplied index holds the
+    array's node. *)
+Theorem C20_tree_new_view : forall H oc v (R : list (nat * bt)) extra b h0 mf,
+  R <> [] -> perfs R -> incr 0 (hts R) -> seg_ok b h0 (rleaves (trs R)) ->
+  rpeaks_at (stored_at H v) mf (trs R) (total (trs R)) -> from_store mf extra ->
+  exists t,
+    tree_new H oc v (total (trs R)) (rev (rpk H v (trs R) (total (trs R)))) extra = Ok t /\
+    inv H v (root_at H v) t R /\
+    (forall i, In i (map fst (rpk H v (trs R) (total (trs R))) ++ map fst extra) ->
+               lookup i (t_stored t) = lookup i mf).
+Proof. exact tree_new_inv. Qed.
+
+(** Bridge between correspondence and property: on a well-typed case outside the known-finding
+    class, agreement of the implementation with the model ([run_case]) implies the verdict of the
+    property checker.  Domain: every codec and combine case, every full-tree history
+    ([Tree::new] on one leaf, then any appends / truncations) ([bridge_dom]), and the partial-view
+    cases that carry their hash table and truncate only where the right spine of the last peak is
+    known to be loaded — supplied to [Tree::new], created by a preceding append, or a single leaf
+    ([view_dom]).  [prop_main] is [prop_case] without the harness-side commitment flag [hok]
+    (for codec and combine cases they coincide: [C20_bridge_codec] concludes [prop_case]).
+    The remaining view cases (no hash table, or a truncation on an under-provisioned view) are
+    evaluated by [prop_case] only. *)
+Theorem C20_agree_implies_property : forall c,
+  bridge_dom c || view_dom c = true -> wf_case c = true -> known_class c = 0%N -> run_case c = true ->
+  prop_main c = true.
+Proof. exact agree_implies_property_all. Qed.
+(** a view accepted by the checker's [view_ok] loads into a tree satisfying the view invariant
+    over the canonical peaks [build ls] *)
+Theorem C20_view_ok_new : forall H oc v ls length peaks extra ops b h0,
+  ls <> [] -> seg_ok b h0 ls ->
+  view_ok H true v ls length peaks extra ops = true ->
+  exists t,
+    tree_new H oc v length peaks extra = Ok t /\ inv H v (root_at H v) t (build ls) /\
+    (forall i, In i (map fst (peaks ++ extra)) -> lookup i (t_stored t) = lookup i (mmr_array H v ls)).
+Proof. exact view_ok_new. Qed.
+Theorem C20_bridge_codec : forall c,
+  codec_case c = true -> wf_case c = true -> known_class c = 0%N -> run_case c = true ->
+  prop_case c = true.
+Proof. exact bridge_codec. Qed.
 
 (** Non-vacuity: the guards are satisfiable, including at extreme counters and heights. *)
 Example C20_nonvacuous :
